@@ -31,7 +31,11 @@ CONFIGS = {
     'noinfo': ['-DUSE_DEVICE_DEPENDENT_ERROR_INFORMATION=0'],
     'dtostre': ['-DUSE_CUSTOM_DTOSTRE=1'],
     'regtree': ['-DSCPI_USER_CONFIG', '-I' + os.path.join(HARNESS, 'regtree')],      # USE_CUSTOM_REGISTERS with the generated user tree
+    'iso': [],                                                                       # strict ISO C for the library: its own str* fallbacks
+    'fewerr': ['-DUSE_FULL_ERROR_LIST=0'],                                           # the minimal error list
 }
+# flags for the library sources only (the drivers keep the default dialect)
+LIBFLAGS = {'iso': ['-std=c99']}
 LIBSRC = ['error.c', 'fifo.c', 'ieee488.c', 'minimal.c', 'parser.c', 'units.c', 'utils.c', 'lexer.c', 'expression.c']
 
 def _hash_files(paths, extra=''):
@@ -59,7 +63,7 @@ def build(name, drivers, config='default', san=True, extra=(), link=()):
     flags += CONFIGS[config] + list(extra)
     if san:
         flags += ['-fsanitize=address,undefined', '-fno-sanitize-recover=undefined', '-fno-omit-frame-pointer']
-    key = _hash_files(repo_sources() + srcs + hdrs, ' '.join(flags) + ' '.join(link))
+    key = _hash_files(repo_sources() + srcs + hdrs, ' '.join(flags) + ' '.join(link) + ' '.join(LIBFLAGS.get(config, [])))
     out = os.path.join(ensure(os.path.join(WORK, 'build', name + '-' + config + '-' + key)), name)
     if os.path.exists(out):
         return out
@@ -75,7 +79,8 @@ def build(name, drivers, config='default', san=True, extra=(), link=()):
         for c in cs:
             o = os.path.join(objdir, os.path.basename(c) + '.o')
             objs.append(o)
-            procs.append((c, subprocess.Popen(['clang'] + flags + ['-c', c, '-o', o], stdout=subprocess.PIPE, stderr=subprocess.STDOUT)))
+            lf = LIBFLAGS.get(config, []) if c not in srcs else []
+            procs.append((c, subprocess.Popen(['clang'] + flags + lf + ['-c', c, '-o', o], stdout=subprocess.PIPE, stderr=subprocess.STDOUT)))
         for c, p in procs:
             o, _ = p.communicate()
             if p.returncode != 0:
